@@ -79,7 +79,7 @@ def cli_store(j, root):
                (["--hashws"] if j["hash_ws"] else []) + [spec_path]
     Conductor.store_study = staticmethod(store)
     try:
-        with contextlib.redirect_stdout(io.StringIO()):
+        with contextlib.redirect_stdout(io.StringIO()), contextlib.redirect_stderr(io.StringIO()):
             try:
                 mmod.main()
             except SystemExit:
